@@ -579,6 +579,7 @@ def run(ctx):
     override_matching(ctx)
     signature_equivalence(ctx)
     overridden_virtuals_are_replaced(ctx)
+    members_start_private_in_a_class_only(ctx)
     convertibility_through_bases(ctx)
     declared_virtuals_are_collected(ctx)
     each_base_contributes_its_own_list(ctx)
@@ -997,3 +998,52 @@ def abstractness_is_decided_by_the_pure_virtuals(ctx):
         ctx.ob("R10.13", "is_abstract|return@%s|after-the-pure-virtuals-were-collected" % f.loc(r).split(":")[-1], not early, f.loc(r),
                "decided from the collected pure virtual functions" if not early else "returns without looking at the pure virtual functions")
     ctx.floor("R10.13", "returns of is_abstract", n, 1)
+
+
+def members_start_private_in_a_class_only(ctx):
+    """R10.14: the class traits (default/copy constructible, destructible) are judged from the accessibility of the special
+    members, so the access a class body STARTS with is part of them: private for `class`, public for `struct` and `union`
+    ([class.access]/3).  Every conditional of the generated parser that picks a CPPVisibility from the class-key semantic
+    value is evaluated for the three class keys.  (Seed S12-C10: named_struct tested `== T_struct ? V_public : V_private`;
+    a named union's unlabelled special members became private, and a class holding such a union lost its implicit
+    constructors and destructor - anonymous_struct kept the right test.)"""
+    db = ctx.db
+    ctx.rule("R10.14", "every grammar action that derives a starting visibility from the class key yields V_private for T_class and V_public for T_struct and T_union")
+    yys = [g for g in db.functions if g.name.endswith("cppyyparse")]
+    en = db.enum("CPPExtensionType::Type")
+    if not yys or not en:
+        ctx.broken("R10.14: generated parser or CPPExtensionType::Type not found")
+        return
+    yy = yys[0]
+    bc = db.meta.get("bison_cases", {})
+    keys = ("T_class", "T_struct", "T_union")
+    n = 0
+    for cs in yy.walk():
+        if cs.get("k") != "case":
+            continue
+        for y in walk(cs.get("sub") or {}):
+            if y.get("k") != "cond":
+                continue
+            x, z = strip_casts(y.get("x") or {}), strip_casts(y.get("y") or {})
+            if not (x and z and x.get("dk") == "enumc" and z.get("dk") == "enumc" and x.get("en") == "CPPVisibility" and z.get("en") == "CPPVisibility"):
+                continue
+            c = strip_casts(y.get("c") or {})
+            if not (c and c.get("k") == "bin" and c.get("op") in ("==", "!=")):
+                continue
+            a, b = strip_casts(c.get("x") or {}), strip_casts(c.get("y") or {})
+            if b is not None and b.get("dk") != "enumc":
+                a, b = b, a
+            if not (b and b.get("dk") == "enumc" and b.get("en") == "CPPExtensionType::Type" and a and (a.get("n") or "").endswith("extension_enum")):
+                continue
+            n += 1
+            lhs = (bc.get(cs.get("v")) or ("case %s" % cs.get("v"),))[0]
+            bad = []
+            for kname in keys:
+                holds = (("CPPExtensionType::" + kname) == b.get("n")) == (c.get("op") == "==")
+                got = (x if holds else z).get("n")
+                want = "V_private" if kname == "T_class" else "V_public"
+                if got != want:
+                    bad.append("%s starts %s" % (kname, got))
+            ctx.ob("R10.14", "%s|starting-visibility|private-for-class-only" % lhs, not bad, "src/cppparser/cppBison.yxx (case %s, generated line %s)" % (cs.get("v"), y.get("l")),
+                   "class: private, struct and union: public" if not bad else "; ".join(bad))
+    ctx.floor("R10.14", "grammar actions that pick a starting visibility from the class key", n, 2)
